@@ -382,8 +382,13 @@ func newItemInsideTarGz(out *tar.Writer, content []byte, header *tar.Header) err
 	header.Format = tar.FormatPAX
 	header.PAXRecords = make(map[string]string)
 
+	digested := content
+	if header.Typeflag == tar.TypeSymlink {
+		// apk-tools checksums a symbolic link by its target, not by (empty) content
+		digested = []byte(header.Linkname)
+	}
 	hasher := sha1.New()
-	_, err := hasher.Write(content)
+	_, err := hasher.Write(digested)
 	if err != nil {
 		return fmt.Errorf("failed to hash content of file %s: %w", header.Name, err)
 	}
